@@ -151,7 +151,7 @@ func (w *world) canonTree(s *scheduler.VerifState) string {
 				}
 				sticks = strings.Join(parts, ",")
 			}
-			items = append(items, fmt.Sprintf("x %s/%s last=%s sticks=%s", id, parseWorkerID(wk.ID), last, sticks))
+			items = append(items, fmt.Sprintf("x %s/%s last=%s sticks=%s parked=%s", id, parseWorkerID(wk.ID), last, sticks, b01(wk.Parked)))
 		}
 	}
 	for _, t := range s.Tasks {
@@ -244,6 +244,13 @@ func treeTap(r *run, line, out string) {
 		if r.prevSt == nil {
 			return
 		}
+		// the executable form of tree_inv (TreeOK for the bags computed from the state + the coupling with
+		// the Sched tables) on the model's own state
+		if ck, err := treeDrv.Ask("treecheck"); err != nil || ck != "ok" {
+			treeCount["treecheck-failed"]++
+			mismatch("tree_inv (executable form evaluated on the model state)", "treecheck after %q: %v %s", strings.Join(watchLast(), " ; "), err, ck)
+			return
+		}
 		it := w.canonTree(r.prevSt)
 		if mt != it {
 			treeCount["tree-differs"]++
@@ -253,6 +260,15 @@ func treeTap(r *run, line, out string) {
 			}
 		}
 	default:
+		// two operations of one task are removed by cleanups due at the same instant: which one is the
+		// task's last operation depends on the layout of the cleanup heap (timestamps of the tree differ)
+		if f[0] != "twake" && len(f) > 1 {
+			if tie, err := treeDrv.Ask("treetie " + f[1]); err == nil && tie == "1" {
+				treeCount["history-discarded-same-task-operation-cleanup-tie"]++
+				r.tie, treeOff = true, true
+				return
+			}
+		}
 		// the answers of the scripted analyzer the Sched model has no use for, and the observed
 		// stickinessRetained of the worker this line belongs to
 		d := 10 + 3*w.an.dur
